@@ -265,6 +265,7 @@ pub fn c01(ctx: &Ctx, rep: &mut Report) {
             break;
         }
         if idx < exh {
+            ctx.begin(idx);
             let g = idx * ctx.nshards + ctx.shard;
             let input = Rc::new(gen::small_string(Fmt::Fasta, g));
             for cfg in &cfgs {
@@ -272,6 +273,7 @@ pub fn c01(ctx: &Ctx, rep: &mut Report) {
             }
             rep.count("exhaustive_strings");
         } else {
+            ctx.begin(idx);
             let mut rng = Rng::derive(&[ctx.seed, ctx.shard, idx, 1]);
             let (bytes, family) = seeded_input(&mut rng, Fmt::Fasta, ctx.shard);
             let r = ref_fasta(&bytes);
@@ -527,6 +529,7 @@ pub fn c02(ctx: &Ctx, rep: &mut Report) {
             break;
         }
         if idx < exh {
+            ctx.begin(idx);
             let g = idx * ctx.nshards + ctx.shard;
             let input = Rc::new(gen::small_string(Fmt::Fastq, g));
             for cfg in &cfgs {
@@ -537,6 +540,7 @@ pub fn c02(ctx: &Ctx, rep: &mut Report) {
             }
             rep.count("exhaustive_strings");
         } else {
+            ctx.begin(idx);
             let mut rng = Rng::derive(&[ctx.seed, ctx.shard, idx, 2]);
             let (bytes, family) = seeded_input(&mut rng, Fmt::Fastq, ctx.shard);
             let r = crate::refmodel::ref_fastq(&bytes);
@@ -666,6 +670,7 @@ pub fn c03(ctx: &Ctx, rep: &mut Report) {
         if ctx.only.is_none() && (ctx.expired() || idx >= ctx.max_cases) {
             break;
         }
+        ctx.begin(idx);
         let mut rng = Rng::derive(&[ctx.seed, ctx.shard, idx, 3]);
         let fmt = if idx % 2 == 0 { Fmt::Fasta } else { Fmt::Fastq };
         // a quarter of the inputs come from the deterministic small corpus
@@ -974,6 +979,7 @@ pub fn c17(ctx: &Ctx, rep: &mut Report) {
         if ctx.only.is_none() && (ctx.expired() || idx >= ctx.max_cases) {
             break;
         }
+        ctx.begin(idx);
         let mut rng = Rng::derive(&[ctx.seed, ctx.shard, idx, 17]);
         let fmt = if idx % 3 == 0 { Fmt::Fasta } else { Fmt::Fastq };
         let opts = GenOpts {
